@@ -36,7 +36,8 @@ Definition n_mismatches (base : nat) (l : list ncase) : list nat := mismatches_f
 
 (* round trip on the model, evaluated on the same number cases: every double that the implementation read from a
    token (nc_parsed) and every finite nc_bits, printed by number_to_json and parsed again, is the same double
-   (zero loses its sign).  This is the statement JcsProofs.num_roundtrip_statement, checked by evaluation. *)
+   (zero loses its sign).  This is JcsProofs.num_roundtrip (now a theorem, number_to_json checks the parse-back
+   itself); the evaluation is kept as an independent check that the self-check never rejects a double. *)
 Definition zero_unsigned (b : N) : N := if N.eqb b 0x8000000000000000 then 0%N else b.
 
 Definition rt_ok (b : N) : bool :=
